@@ -297,3 +297,35 @@ pub fn c16(tier: Tier) -> i32 {
     rep.set("explanation", json!("states = operation sequences executed on the real store (each is a distinct history), transitions = operations executed; the reference store is checked after every operation for every live waiter"));
     rep.finish()
 }
+
+pub fn replay(v: &serde_json::Value) -> i32 {
+    let mut seq = Vec::new();
+    for o in v["replay"]["sequence"].as_array().cloned().unwrap_or_default() {
+        let o = o.as_str().unwrap_or("").to_string();
+        let key = |s: &str| if s.contains("(b)") { 1u8 } else { 0u8 };
+        let op = if o.starts_with("write") { Op::Write(key(&o)) } else if o.starts_with("read") { Op::Read(key(&o)) } else if o.starts_with("notify_read") { Op::Notify(key(&o)) } else if o.contains("oldest") { Op::CancelOldest } else if o.contains("newest") { Op::CancelNewest } else { Op::Reopen };
+        seq.push(op);
+    }
+    let rt = Rt::new();
+    let path = format!("/dev/shm/hsv-c16-replay-{}", std::process::id());
+    let _ = std::fs::remove_dir_all(&path);
+    let store = rt.block_on(async { Store::new(&path) }).expect("rocksdb");
+    let mut env = Env { rt, path: path.clone(), store: Some(store) };
+    let mut outcome = Vec::new();
+    let r = run_seq(&mut env, 1, &seq, &mut outcome);
+    println!("sequence: {}", seq.iter().map(name).collect::<Vec<_>>().join(", "));
+    env.store = None;
+    env.rt.quiesce();
+    drop(env);
+    let _ = std::fs::remove_dir_all(&path);
+    match r {
+        Ok(()) => {
+            println!("replay did not reproduce a violation of C16");
+            0
+        }
+        Err((sig, what)) => {
+            println!("[{}] {}", sig, what);
+            1
+        }
+    }
+}
